@@ -690,6 +690,16 @@ def gen_script(r, link):
         if r.random() < 0.06:
             script.append('@failwrite')
             script.append(f)
+        elif r.random() < 0.25:
+            # scripted transmit side: the reply is taken in pieces, the rest is parked; decode level changes arrive
+            # while it is parked; then there is room again (every byte of the reply must go out exactly once)
+            for _ in range(r.choice([1, 1, 2])):
+                script.append(f'@Wa{r.choice([1, 2, 3, 5, 7, 8, 9])}')
+            script.append('@Wb')
+            script.append(f)
+            for _ in range(r.choice([1, 1, 2, 3])):
+                script.append(r.choice(['@min', '@max']))
+            script.append('@R')
         elif r.random() < 0.35:
             script.append('@block')
             script.append(f)
@@ -736,8 +746,13 @@ def script_coq(case):
                 evs.append('EClosed')
             elif x == '@failwrite':
                 failing = True
-            elif x == '@block':
+            elif x == '@block' or x == '@Wb':
                 blocked = True
+            elif x.startswith('@Wa'):
+                pass
+            elif x == '@R':
+                blocked = False
+                evs.append('EWriteDone')
             elif x == '@unblock':
                 blocked = False
                 evs.append('EWriteDone')
@@ -760,7 +775,7 @@ def run_scripts(ctx, cases):
     norm = []
     for i in impl:
         rep, log, end = split3(i)
-        norm.append(([x for x in rep if x != '-'], log, end))
+        norm.append((''.join(x for x in rep if x != '-'), log, end))      # the bytes the transport accepted, in order
     if STATE['model_ok']:
         res = ctx.coq_eval(MODULES, 'run_both_ev', [script_coq(c) for c in cases], case_type='ecase', per_shard=100)
         both = [tuple(x.split('#')) for x in res]
